@@ -32,12 +32,61 @@ def _one(args):
         shutil.rmtree(d, ignore_errors=True)
 
 
-def run(pid, workers=8):
+def _touched(patch):
+    out = set()
+    try:
+        for l in open(patch, errors='replace'):
+            if l.startswith('+++ '):
+                out.add(os.path.basename(l[4:].split('\t')[0].strip()))
+    except Exception:
+        pass
+    return out
+
+
+def _relevant(patch, units):
+    """a behaviour-preserving variant can only raise a false alarm in a check that reads the code it rewrites: it is run for a property
+    when it touches a header, a unit the baseline run of that property analysed, or a .c file such a unit includes (pixman-region.c in
+    pixman-region16.c / -32.c, pixman-access.c in pixman-access-accessors.c, pixman-edge.c in pixman-edge-accessors.c)"""
+    if not units:
+        return True
+    inc = _c_includes()
+    for t in _touched(patch) or {'?.h'}:
+        if t.endswith('.h') or t in units:
+            return True
+        if any(u in units for u in inc.get(t, ())):
+            return True
+    return False
+
+
+_INC = {}
+
+
+def _c_includes():
+    """.c files that are #included by other units of the tree: {included: [including unit, ...]}"""
+    key = repo()
+    if key not in _INC:
+        import re
+        m = {}
+        for path in glob.glob(os.path.join(key, 'pixman', '*.c')):
+            try:
+                txt = open(path, errors='replace').read()
+            except Exception:
+                continue
+            for q in re.findall(r'#\s*include\s+"([^"]+\.c)"', txt):
+                m.setdefault(os.path.basename(q), []).append(os.path.basename(path))
+        _INC[key] = m
+    return _INC[key]
+
+
+def run(pid, workers=8, units=None):
     jobs = [(pid, p, True) for p in sorted(glob.glob(os.path.join(VERIF, 'mutants', pid, '*.patch')))]
     jobs += [(pid, p, True) for p in sorted(glob.glob(os.path.join(VERIF, 'seeded', '*', 'patch.diff'))) if _seed_applies(p, pid)]
-    jobs += [(pid, p, False) for p in sorted(glob.glob(os.path.join(VERIF, 'benign', '*.patch')))]
+    benign = sorted(glob.glob(os.path.join(VERIF, 'benign', '*.patch')))
+    jobs += [(pid, p, False) for p in benign if _relevant(p, units)]
     with ThreadPoolExecutor(max_workers=workers) as ex:
-        return list(ex.map(_one, jobs))
+        res = list(ex.map(_one, jobs))
+    res += [(p, 'not-relevant', 'touches no unit this check analyses') for p in benign if not _relevant(p, units)]
+    return res
 
 
 def _seed_applies(patch, pid):
